@@ -27,6 +27,7 @@ def build(prop, tier, seed, n, n_keys, samples, stats, wall, n_viol, n_known=0, 
         'critical_window_overlaps': stats.get('overlaps', {}),
         'outcomes': stats.get('outcomes', {}),
         'probes': stats.get('probes', {}),
+        'determinism_sample': stats.get('determinism_sample', {}),
         'known_findings_hit': int(n_known),
         'stopped_by_wall_cap': bool(capped),
         'workers': workers,
